@@ -76,6 +76,7 @@ def main():
         assumptions=getattr(mod, "ASSUMPTIONS", None) or DEFAULT_ASSUMPTIONS,
         not_decided=getattr(mod, "NOT_DECIDED", []),
         explanation=getattr(mod, "EXPLANATION", ""),
+        evidence_dir=(os.path.join(core.WORK, "evidence-" + (a.tag or "scratch")) if (a.repo or a.tag) else None),
     )
 
 
